@@ -77,7 +77,7 @@ def loadPluginModule(name, ignoreDeprecation=False):
             log.warning('Invalid plugin directory: %s; removing.', dir)
             conf.supybot.directories.plugins().remove(dir)
     if name not in files:
-        search = lambda x: re.search(r'(?i)^%s$' % (name,), x)
+        search = lambda x: re.search(r'(?i)^%s$' % (re.escape(name),), x)
         matched_names = list(filter(search, files))
         if len(matched_names) >= 1:
             name = matched_names[0]
